@@ -41,7 +41,7 @@ def run_case(case):
     try:
         cfg = Config(root)
     except Exception as e:
-        return dict(kind=evalcorr.err_kind(e), calls=list(evalcorr.CALL_LOG), err=str(e)[:200])
+        return dict(kind=evalcorr.err_kind(e), calls=list(evalcorr.CALL_LOG), err=str(e)[:200], unsafe_cause=bool(evalcorr.has_unsafe_cause(e)))
     calls = list(evalcorr.CALL_LOG)
     out = []
     for p in case.get('probes', []):
